@@ -24,11 +24,11 @@ fn run(args: vcore::Args) -> i32 {
     let configs: Vec<(sess::Model, usize)> = match tier {
         Tier::Quick => vec![
             (sess::Model { prop: "C02", sessions: 2, writes: sess::ALL_W.to_vec(), caps: vec![3, 2], writers: vec![0], levels: vec![0], probes: all_probes.clone(), second_commit_first: false, endings: true }, 4),
-            (sess::Model { prop: "C02", sessions: 2, writes: vec![sess::W::CreateNode, sess::W::DeleteNodeB, sess::W::InsertTriple, sess::W::DeleteTriple], caps: vec![5, 1], writers: vec![0], levels: vec![0], probes: all_probes.clone(), second_commit_first: true, endings: true }, 5),
+            (sess::Model { prop: "C02", sessions: 2, writes: vec![sess::W::CreateNode, sess::W::InsertTriple, sess::W::DeleteTriple, sess::W::InsertTriple0, sess::W::DeleteTriple1], caps: vec![5, 1], writers: vec![0], levels: vec![0], probes: all_probes.clone(), second_commit_first: true, endings: true }, 5),
         ],
         Tier::Thorough => vec![
             (sess::Model { prop: "C02", sessions: 2, writes: sess::ALL_W.to_vec(), caps: vec![5, 2], writers: vec![0], levels: vec![0, 1], probes: all_probes.clone(), second_commit_first: false, endings: true }, 5),
-            (sess::Model { prop: "C02", sessions: 3, writes: vec![sess::W::CreateNode, sess::W::SetProp, sess::W::DeleteNodeB, sess::W::CreateEdge, sess::W::InsertTriple, sess::W::DeleteTriple], caps: vec![4, 3, 1], writers: vec![0, 1], levels: vec![0], probes: all_probes.clone(), second_commit_first: true, endings: true }, 5),
+            (sess::Model { prop: "C02", sessions: 3, writes: vec![sess::W::CreateNode, sess::W::SetProp, sess::W::DeleteNodeB, sess::W::InsertTriple, sess::W::DeleteTriple, sess::W::InsertTriple0, sess::W::DeleteTriple1], caps: vec![4, 3, 1], writers: vec![0, 1], levels: vec![0], probes: all_probes.clone(), second_commit_first: true, endings: true }, 5),
         ],
     };
     let mut layers = vec![];
